@@ -308,6 +308,53 @@ func famTree(o *Out, r R, tier string) {
 			emitWith("fanout/n="+strconv.Itoa(cnt), pats, probes)
 		}
 	}
+	// dense small universe: every host of one to three labels over {a, b, aa, ab, ba, bb} is a probe, under every scheme
+	// and port in play; the lists are long (6..40 patterns), so that nodes are split repeatedly, at and off label
+	// boundaries, and every node kind (entry-only, branch-only, both) occurs at several depths
+	labels := []string{"a", "b", "aa", "ab", "ba", "bb"}
+	var universe []string
+	for _, l1 := range labels {
+		universe = append(universe, l1)
+		for _, l2 := range labels {
+			universe = append(universe, l2+"."+l1)
+			for _, l3 := range labels {
+				universe = append(universe, l3+"."+l2+"."+l1)
+			}
+		}
+	}
+	ndense := 30
+	if tier == "thorough" {
+		ndense = 300
+	}
+	for i := 0; i < ndense; i++ {
+		n := 6 + r.Intn(35)
+		schs := []string{"https", "http"}
+		prts := []string{"", ":81", ":*"}
+		if r.chance(1, 3) {
+			schs = []string{"https"}
+		}
+		if r.chance(1, 3) {
+			prts = []string{"", ":*"}
+		}
+		pats := make([]string, n)
+		for j := range pats {
+			h := r.pick(universe)
+			if r.chance(1, 4) {
+				h = "*." + h
+			}
+			pats[j] = r.pick(schs) + "://" + h + r.pick(prts)
+		}
+		var probes []string
+		for _, sc := range schs {
+			for _, pt := range []string{"", ":81", ":82"} {
+				for _, h := range universe {
+					probes = append(probes, sc+"://"+h+pt)
+				}
+			}
+		}
+		probes = append(probes, "https://c.a", "https://a.c", "https://aaa", "https://a.a.a.a", "https://b.b.b.b:81", "http://ab.ab.ab.ab")
+		emitWith("dense/n="+strconv.Itoa(n), pats, probes)
+	}
 	if tier == "thorough" { // every permutation of some 5-element lists
 		for i := 0; i < 40; i++ {
 			pats := make([]string, 5)
